@@ -541,6 +541,9 @@ def check_C17(tier: str, v: Verdict):
                 ss = sessions_from_behaviour(b)
                 jobs.append((sc, [{"policy": s["policy"], "kill_at": s["kill_at"]} for s in ss], str(root / f"b{len(jobs)}"),
                              f"tlc-crash-behaviour-{bi}"))
+        # every edge (kill edges included) of the complete state graph of the two-subject configuration with one
+        # kill: replayed with real SIGKILLs
+        results += replay_edge_cover(v, root, rng, 400, which=("two-absent",))
         jobs.append((FOREIGN_SCENARIO, [{"policy": ("seq",), "kill_at": None}, {"policy": ("seq",), "kill_at": None}], str(root / "foreign"), "foreign-header"))
         results += run_histories(jobs)
         validate_histories(v, results, "C17")
@@ -639,7 +642,8 @@ def graph_edge_cover(cfg: str, max_paths: int, rng):
 
 def replay_edge_cover(v: Verdict, root: Path, rng, max_paths: int, which=("triple", "dup")):
     results = []
-    for cfg, sc in (("MC_Agg_c16_triple_graph.cfg", C16_SCENARIOS[1]), ("MC_Agg_c16_dup_graph.cfg", C16_SCENARIOS[0])):
+    for cfg, sc in (("MC_Agg_c16_triple_graph.cfg", C16_SCENARIOS[1]), ("MC_Agg_c16_dup_graph.cfg", C16_SCENARIOS[0]),
+                    ("MC_Agg_c17_absent_graph.cfg", C17_SCENARIOS[0])):
         if sc["name"].split("+")[0] not in which:
             continue
         paths, n_edges, n_cov, r = graph_edge_cover(cfg, max_paths, rng)
@@ -648,12 +652,13 @@ def replay_edge_cover(v: Verdict, root: Path, rng, max_paths: int, which=("tripl
         for i, p in enumerate(paths):
             tag = f"edge-cover-{sc['name']}-{i}"
             expect[tag] = p
-            jobs.append((sc, [{"policy": ("script", [a for a, _ in p]), "kill_at": None}], str(root / f"ec{sc['name']}{i}"), tag))
+            ss = sessions_from_behaviour(p)        # a path with Crash / Restart steps is a history of several sessions
+            jobs.append((sc, [{"policy": s["policy"], "kill_at": s["kill_at"]} for s in ss], str(root / f"ec{sc['name']}{i}"), tag))
         res = run_histories(jobs)
         followed = 0
         for r_ in res:
             got = [(p, op) for p, op in r_["ops"]]
-            want = expect[r_["tag"]]
+            want = list(expect[r_["tag"]])
             if got == want:
                 followed += 1
             else:
